@@ -48,7 +48,12 @@ func (r *runner) allSpecs(tier string) []*spec {
 }
 
 func (r *runner) runAll(tier, casesPath string, tail bool) {
-	specs := r.allSpecs(tier)
+	var specs []*spec
+	for i, s := range r.allSpecs(tier) {
+		if r.mine(i) {
+			specs = append(specs, s)
+		}
+	}
 	r.res.Stats["specs"] = len(specs)
 	bases := []struct {
 		name string
@@ -59,31 +64,13 @@ func (r *runner) runAll(tier, casesPath string, tail bool) {
 		r.res.Stats["ms_"+name] = int(time.Since(t0).Milliseconds())
 		t0 = time.Now()
 	}
-	// the real Tail first, while the "live" lines are fresh; its statements are compared at the end
+	// the canary translations are the very first translations of this process
+	r.canary()
+	// the real Tail next, while the "live" lines are fresh; its statements are compared at the end
 	var tails []*tailRun
 	if tail {
 		tails = r.tailCollect(tier)
 		lap("tail")
-	}
-	// baseline: the planner fields the simplest plans write
-	for lang, qs := range map[string][]*spec{
-		"logql":   {logSpec(`{a="b"}`), logSpec(`rate({a="b"}[1m])`), logSpec(`rate({a="b"}[5s])`), logSpec(`{a="b"} | json`), fpSpec(`{a="b"}`)},
-		"traceql": {traceSpec(`{.a="b"} | count() > 1`, 20, 0), traceSpec(`{.a="b"} | avg(duration) > 1s`, 20, 0), traceSpec(`{.a="b"}`, 20, 0), traceSpec(`{.a="b"}`, 20, 25_000_000), tracePortionSpec(`{.a="b"}`), tagsSpec(`{.a="b"}`), valuesSpec(`{.a="b"}`, ".a")},
-		"prof":    profSpecs(`{service_name="svc"}`),
-	} {
-		r.baseline[lang] = map[string]bool{}
-		for _, s := range qs {
-			r.setup(s)
-			sub, err := s.Make()
-			if err != nil {
-				continue
-			}
-			for k, w := range bases[0].wins {
-				for _, fw := range sub.process(r.x, w, k+1, true).Writes {
-					r.baseline[lang][fw.Field] = true
-				}
-			}
-		}
 	}
 	// pass 1: re-execution (fresh arms are made first, i.e. "before" everything that follows)
 	var ok []*spec
